@@ -1,13 +1,17 @@
 import json, os
-import codec, httpdrv
+import codec, httpdrv, rootmode, anymode
 from codecmode import MODELLED
 from generic import run_check
 from lib import sh, env_go, Broken
 
 
 def main(tier, seed, replay):
+    state = {}
+
     def build(work):
         exe, schema = codec.build_driver(work)
+        state["exe"] = exe
+        state["env"] = dict(VERIF_SCHEMA=schema)
         return exe, dict(VERIF_SCHEMA=schema, VERIF_MODE="c04")
 
     def post(run, rep, out):
@@ -28,17 +32,21 @@ def main(tier, seed, replay):
                                      rule=hrep["rule"], input_distribution=hrep["distribution"],
                                      samples=hrep["samples"][:3])
         run.log("HTTP level: %d evaluations, %d oracle failures" % (hrep["evaluations"], len(hrep["failures"])))
+        # the UNTYPED reader on hostile Go values (decA_never_panics; mode cany)
+        anymode.any_post(state)(run, rep, out)
+        # ROOT module generation: the same hostile streams against the root readers / root bindings
+        rootmode.run_root(run, "c04", tier, seed)
 
     codec.write_fam_env()
     return run_check(
         "C04", tier, seed, replay,
         tables=["TablesCodec"],
-        model_targets=["Corr/CodecCorr.vo"],
-        prop_module="Props.C04",
+        model_targets=["Corr/CodecCorr.vo", "Corr/AnyCorr.vo"],
+        prop_module=["Props.C04", anymode.ANY_PROP],
         driver="codecdrv", build=build, post=post,
         corr_name="corr:hostile-input (cursor-level ROR2 model vs the readers: outcome class and value on every hostile string)",
-        trusted=MODELLED + ["HTTP level (malformed requests / responses through the generated server and client) and JSON bodies are decided by the "
+        trusted=MODELLED + anymode.ANY_TRUSTED + ["HTTP level (malformed requests / responses through the generated server and client) and JSON bodies are decided by the "
                             "property oracle on the implementation only: net/http and easyjson's lexer are external"],
         assume=[],
-        coqchk_modules=["GR.Props.C04"],
+        coqchk_modules=["GR.Props.C04", "GR." + anymode.ANY_PROP],
     )
